@@ -440,8 +440,7 @@ def parse_global(l, mod):
         else: break
     k, v = p.next()
     if v == 'alias':
-        t = p.parse_type(); p.expect(',')
-        mod.aliases[name] = (t, toks[p.i:])
+        mod.aliases[name] = (None, toks[p.i:])
         return
     if v == 'ifunc': raise IRError('ifunc')
     if v not in ('global', 'constant'): raise IRError('global? ' + l)
@@ -490,6 +489,7 @@ class FnGen:
         self.refs = set()  # referenced globals/functions
         self.tmpc = 0
         self.defs = {}     # local ir name -> defining instruction tokens
+        self.cond_expr = {}
     def lname(self, v):
         if v in self.lnames: return self.lnames[v]
         c = 'v' + re.sub(r'[^A-Za-z0-9_]', '_', v[1:].strip('"'))
@@ -909,8 +909,12 @@ class Gen:
             if op in ('zext', 'sext', 'trunc', 'bitcast', 'ptrtoint', 'inttoptr'):
                 self.define(fg, d, tt, self.cast(op, e, ft, tt), code); return
             ct = cg.ctype(tt)
-            if op == 'fptoui': ex = self.mask('((%s)%s)' % (ct, e), tt)
-            elif op == 'fptosi': ex = self.mask('((%s)(%s)%s)' % (ct, cg.sctype(tt), e), tt)
+            if op == 'fptoui':
+                code.append('VERIF_CHECK(%s > -1.0 && %s < %s, "UB: floating-point to unsigned conversion out of range");' % (e, e, float(2 ** tt[1]).hex()))
+                ex = self.mask('((%s)%s)' % (ct, e), tt)
+            elif op == 'fptosi':
+                code.append('VERIF_CHECK(%s > %s && %s < %s, "UB: floating-point to signed conversion out of range");' % (e, float(-(2 ** (tt[1] - 1)) - 1).hex(), e, float(2 ** (tt[1] - 1)).hex()))
+                ex = self.mask('((%s)(%s)%s)' % (ct, cg.sctype(tt), e), tt)
             elif op == 'uitofp': ex = '((%s)%s)' % (ct, e)
             elif op == 'sitofp':
                 ex = '((%s)(%s)%s)' % (ct, cg.sctype(ft), e) if ft[1] in (8, 16, 32, 64) else '((%s)SEXT_ODD(%s,%d))' % (ct, e, ft[1])
@@ -919,7 +923,9 @@ class Gen:
         if op == 'icmp':
             pred = p.next()[1]; t = p.parse_type()
             a = self.value(p, t, fg); p.expect(','); b = self.value(p, t, fg)
-            self.define(fg, d, I1, self.icmp(pred, a, b, t), code); return
+            ex = self.icmp(pred, a, b, t)
+            fg.cond_expr[fg.lname(d)] = ex     # SSA: operands never change, so a branch may repeat the comparison
+            self.define(fg, d, I1, ex, code); return
         if op == 'fcmp':
             while p.peek()[1] in FMF: p.next()
             pred = p.next()[1]; t = p.parse_type()
@@ -999,6 +1005,9 @@ class Gen:
                 to = p.next()[1][1:].strip('"')
                 code.append(self.edge(fg, bn, to)); return
             c, _ = self.typed_value(p, fg); p.expect(','); p.expect('label')
+            # branch on the comparison itself (not on the i1 temporary): lets CBMC's symex filter pointer
+            # value sets on null checks, which keeps vptr loads constant after path merges
+            c = fg.cond_expr.get(c, c)
             a = p.next()[1][1:].strip('"'); p.expect(','); p.expect('label'); b = p.next()[1][1:].strip('"')
             code.append('if (%s) %s else %s' % (c, self.edge(fg, bn, a), self.edge(fg, bn, b))); return
         if op == 'switch':
@@ -1163,6 +1172,15 @@ class Gen:
         result = None
         if callee_name is not None:
             result = self.intrinsic(fg, callee_name, rt, args, code, d)
+            if result is None and callee_name in ('_Znwm', '_Znam') and d is not None and re.fullmatch(r'\d+(ULL|U)?', args[0][0]):
+                # operator new(constant): give the dynamic object the struct type it is cast to, so CBMC keeps
+                # field sensitivity (vptr fields stay constants)  -- same size, same layout
+                n = int(re.match(r'\d+', args[0][0]).group(0))
+                ty = self.new_type_hint(fg, d, n)
+                if ty is not None:
+                    dn = fg.lname(d); fg.decls[dn] = cg.ctype(rt); fg.vtypes[d] = rt
+                    code.append('%s = (%s)malloc(sizeof(%s)); VERIF_ASSUME(%s != 0);' % (dn, cg.ctype(rt), cg.ctype(ty), dn))
+                    result = ('stmt', None)
             if result is None:
                 self.note_ref(callee_name, fg)
                 cn = cg.gname(callee_name)
@@ -1197,6 +1215,8 @@ class Gen:
                 if d is not None and rt != VOID:
                     dn = fg.lname(d); fg.decls[dn] = cg.ctype(rt); fg.vtypes[d] = rt
                 stmt = ''
+                if len(cands) == 1:
+                    stmt = 'VERIF_CHECK((void*)%s == (void*)&%s, "indirect call target outside the candidate set (ir2c devirtualisation)"); ' % (callee_expr, cg.gname(cands[0]))
                 for cn in cands:
                     fdef = self.mod.funcs[cn]
                     self.note_ref(cn, fg)
@@ -1206,8 +1226,11 @@ class Gen:
                     call = '%s(%s)' % (cg.gname(cn), ', '.join(cargs))
                     if dn is not None:
                         call = '%s = %s' % (dn, call if fdef['ret'] == rt else '((%s)%s)' % (cg.ctype(rt), call))
-                    stmt += 'if ((void*)%s == (void*)&%s) { %s; } else ' % (callee_expr, cg.gname(cn), call)
-                stmt += '{ VERIF_CHECK(0, "indirect call target outside the candidate set (ir2c devirtualisation)"); VERIF_ASSUME(0); }'
+                    if len(cands) == 1:
+                        stmt += '%s;' % call
+                    else:
+                        stmt += 'if ((void*)%s == (void*)&%s) { %s; } else ' % (callee_expr, cg.gname(cn), call)
+                if len(cands) != 1: stmt += '{ VERIF_CHECK(0, "indirect call target outside the candidate set (ir2c devirtualisation)"); VERIF_ASSUME(0); }'
                 code.append(stmt)
                 result = ('stmt', None)
         kind, ex = result
@@ -1221,6 +1244,38 @@ class Gen:
         if is_invoke:
             code.append(self.edge(fg, bn, normal))
 
+    def size_align(self, t, depth=0):
+        k = t[0]
+        if depth > 40: return None
+        if k == 'int':
+            n = t[1]
+            for w in (8, 16, 32, 64, 128):
+                if n <= w: return (w // 8, w // 8)
+            return None
+        if k == 'float': return (4, 4)
+        if k == 'double': return (8, 8)
+        if k == 'fp80': return (16, 16)
+        if k == 'ptr': return (8, 8)
+        if k == 'array':
+            sa = self.size_align(t[2], depth + 1)
+            return None if sa is None else (sa[0] * t[1], sa[1])
+        if k in ('struct', 'lstruct'):
+            if k == 'struct':
+                ent = self.mod.structs.get(t[1])
+                if not ent or ent[0] is None: return None
+                fields, packed = ent
+            else:
+                fields, packed = t[1], t[2]
+            off = 0; al = 1
+            for f in fields:
+                sa = self.size_align(f, depth + 1)
+                if sa is None: return None
+                fa = 1 if packed else sa[1]
+                off = (off + fa - 1) // fa * fa
+                off += sa[0]; al = max(al, fa)
+            off = (off + al - 1) // al * al
+            return (off, al)
+        return None
     def compat(self, a, b):
         if a == b: return True
         if a[0] == 'ptr' and b[0] == 'ptr': return True
@@ -1246,7 +1301,8 @@ class Gen:
         st = fty[2][0]; ct = fdef['params'][0][0]
         if st[0] != 'ptr' or ct[0] != 'ptr': return True
         if st[1][0] != 'struct' or ct[1][0] != 'struct': return True
-        return self.contains_struct(ct[1], st[1])
+        # overrider in a derived class (ct contains st) or implementation inherited from a base (st contains ct)
+        return self.contains_struct(ct[1], st[1]) or self.contains_struct(st[1], ct[1])
     def vtable_slots(self):
         """list of vtable arrays: each a list of function names / None, from _ZTV* globals"""
         if hasattr(self, '_vt'): return self._vt
@@ -1370,6 +1426,22 @@ class Gen:
             fdef = self.mod.funcs.get(fn)
             if fdef and not fn.startswith('llvm.') and self.sig_compat(fdef, fty): cands.append(fn)
         return cands
+    def new_type_hint(self, fg, d, n):
+        """struct type T with sizeof(T)==n that the result %d of operator new is bitcast to in this function"""
+        pat = re.compile(r'= bitcast i8\* ' + re.escape(d) + r' to ')
+        for l in fg.f['body']:
+            if pat.search(l):
+                toks = lex(l.strip())
+                p = P(toks, self.mod)
+                try:
+                    while not p.at('to'): p.next()
+                    p.next(); t = p.parse_type()
+                except IRError:
+                    continue
+                if t[0] == 'ptr' and t[1][0] in ('struct', 'lstruct'):
+                    sa = self.size_align(t[1])
+                    if sa and sa[0] == n: return t[1]
+        return None
     def byval_args(self, fg, args, code):
         out = []
         for e, t, info in args:
@@ -1592,6 +1664,8 @@ def main():
     for n in names:
         f = mod.funcs[n]
         if n.startswith('llvm.') or n in ('__VERIFIER_assert', '__VERIFIER_assume', '__VERIFIER_cover'): continue
+        if n in ('malloc', 'free', 'memcpy', 'memmove', 'memset') and f['body'] is None:
+            externals.append(n); continue     # prototypes come from verif_rt.h
         fn_protos.append(proto(f))
         if f['body'] is None or n in overrides:
             externals.append(n); continue
@@ -1612,7 +1686,7 @@ def main():
     for n, (t, toks) in mod.aliases.items():
         if n not in live: continue
         # alias to function: "#define alias target" is enough for direct calls and address-of
-        tgt = [x[1] for x in toks if x[0] == 'glob'][0][1:].strip('"')
+        tgt = [x[1] for x in toks if x[0] == 'glob'][-1][1:].strip('"')
         alias_defs.append('#define %s %s' % (cg.gname(n), cg.gname(tgt)))
     fwdl, typedefs, tlines = cg.emit_types()
     # gen may register types lazily during function generation; emit_types after everything
